@@ -153,6 +153,22 @@ _c("C20",
    "Coq proof (all interleavings by induction over the shuffle relation, witness construction) + generated access lists + "
    "deterministic schedule exploration and trace correspondence in vm_compute")
 
+_c("C13",
+   "Coq theorems (Props/C13.v, closed under the global context) over an executable model of the annotation/assignment conversion "
+   "(Struct/Spelling.v: add_annotations_to_class_dict, get_typing_lib_info, FieldMeta/_CollectionMeta.__getitem__, |) that uses the "
+   "builtin->Field table regenerated from convert_basic_types on every run (Gen/TypeMapping.v): the inductively generated congruence "
+   "sp_eq of the property's spelling pairs (19 rules, any nesting) implies convert s1 = convert s2 (C13_equiv, mutual induction on "
+   "derivations), hence identical vset for every value and identical result of any observer such as serialization (C13_behaviour, "
+   "C13_observer); declaration forms (annotation vs assignment, '=' vs default= for truthy defaults, Optional vs _optional) give equal "
+   "field, default and required-ness (C13_decl, C13_class); the falsy-default clause is refuted by witness (F12). Every semantic field "
+   "is rendered in all its spellings, realised in module files with and without 'from __future__ import annotations', and compared on "
+   "field sets, required sets, accept/reject/exception class/normal form/serialization; reified real Field objects are compared with "
+   "the model's convert inside Coq.",
+   "Trusted: Coq kernel + vm_compute; Spelling.v hand-written; table extractor harness/genmods/type_mapping.py (raises on anything "
+   "unrecognised); typing's own Union flattening is CPython's; frame-inspection glue exercised by the harness only.",
+   "Coq proof (congruence of spellings by mutual induction on derivations, parametric in the generated type table) + "
+   "model/implementation correspondence in vm_compute")
+
 PENDING = {}
 
 def main():
